@@ -1,3 +1,59 @@
-From Cache Require Import Base.
-Theorem C16_placeholder : True. Proof. exact I. Qed.
-Print Assumptions C16_placeholder.
+(* C16 — the public API is free of data races. Statements only. *)
+From Cache Require Import Base Conc Failover FailoverProofs.
+From Cache.Generated Require Import Struct.
+
+(* Lockset soundness (Go memory model edges for Mutex/RWMutex; atomics never race with each other):
+   in a trace that respects the mutexes, if every pair of conflicting accesses shares a mutex that
+   every writer holds in write mode, no two conflicting accesses are unordered by happens-before. *)
+Theorem C16_lockset_sound : forall tr, wf tr -> guarded tr -> forall i j, ~ race tr i j.
+Proof. exact lockset_sound. Qed.
+Print Assumptions C16_lockset_sound.
+
+(* The access table regenerated from /repo's current source on this run satisfies the discipline:
+   every pair of conflicting access sites (a site also conflicts with itself) has a common mutex of
+   the location's own object, held in write mode by writers — or both sites are atomic / sync.Map /
+   channel operations, or one of them initializes an object that is not yet published. *)
+Theorem C16_table_ok : lockset_ok table = true.
+Proof. vm_compute. reflexivity. Qed.
+Print Assumptions C16_table_ok.
+
+(* Hence: any trace of any concurrent client program whose accesses are instances of the table's
+   sites (on any objects, any number of threads) and that respects the mutexes is race free. *)
+Theorem C16_race_free : forall tr, wf tr -> instance_of tr table -> forall i j, ~ race tr i j.
+Proof. intros tr. exact (table_race_free tr table C16_table_ok). Qed.
+Print Assumptions C16_race_free.
+
+(* kl.val / kl.err are the one place where the discipline is ownership + channel: in the Failover
+   model a key-lock record changes only by a step of the thread that owns it, while it is still open;
+   a closed record never changes again; and a waiter returns what it reads from a record only when
+   that record is closed (after the receive from the closed channel). *)
+Theorem C16_kl_written_by_owner_while_open : forall fe nilb c s t o s' th id x,
+  LInv s -> threads s !! t = Some th -> fstep fe nilb c s (LStep t o) = Some s' ->
+  kls s !! id = Some x -> kls s' !! id <> Some x ->
+  t_own th = Some id /\ kl_closed x = false.
+Proof. exact kl_written_open. Qed.
+Print Assumptions C16_kl_written_by_owner_while_open.
+
+Theorem C16_kl_closed_is_final : forall fe nilb c s l s' id x,
+  LInv s -> fstep fe nilb c s l = Some s' -> kls s !! id = Some x -> kl_closed x = true -> kls s' !! id = Some x.
+Proof. exact closed_is_final. Qed.
+Print Assumptions C16_kl_closed_is_final.
+
+Theorem C16_kl_read_after_close : forall fe nilb c s t o s' th,
+  threads s !! t = Some th -> t_pc th = PWaiting -> fstep fe nilb c s (LStep t o) = Some s' ->
+  exists id x, t_wait th = Some id /\ kls s !! id = Some x /\ kl_closed x = true /\
+               option_map t_res (threads s' !! t) = Some (kl_val x, kl_err x).
+Proof. exact waiter_reads_closed. Qed.
+Print Assumptions C16_kl_read_after_close.
+
+(* Non-vacuity of the lockset theorem: a racy two-thread trace is a race, the locked one is not. *)
+Example C16_nonvacuous_race : race [Acc 1%N 5%N true false; Acc 2%N 5%N false false] 0 1.
+Proof.
+  exists (Acc 1%N 5%N true false), (Acc 2%N 5%N false false). repeat split; auto; try discriminate.
+  intros H. remember 0%nat as i. remember 1%nat as j.
+  assert (Hgen : forall i j, hb [Acc 1%N 5%N true false; Acc 2%N 5%N false false] i j -> False).
+  { clear. intros i j H. induction H as [i j e1 e2 Hlt H1 H2 Ht|i j t1 t2 m w1 w2 Hlt H1 H2 _|]; auto.
+    - destruct i as [|[|i]], j as [|[|j]]; cbn in *; try lia; try discriminate. injection H1 as <-. injection H2 as <-. discriminate.
+    - destruct i as [|[|i]]; cbn in H1; discriminate. }
+  exact (Hgen _ _ H).
+Qed.
